@@ -74,6 +74,10 @@ impl<R: Read + Seek> ReadBox<&mut R> for MinfBox {
                     "minf box contains a box with a larger size than it",
                 ));
             }
+            if s == 0 {
+                // A zero-size child never advances the stream: stop instead of looping forever.
+                break;
+            }
 
             match name {
                 BoxType::VmhdBox => {
